@@ -167,6 +167,7 @@ def shards(tier, seed):
         out.insert(0, ('sequence', first, None, tier))
     out.append(('static', None, None, tier))
     out.append(('statustext', None, None, tier))
+    out.append(('catchall', None, None, tier))
     # seed extension: one more value shape
     out.append(('extra', seed % 4, None, tier))
     return out
@@ -754,6 +755,63 @@ def work_statustext(res, om):
     core.add_sample(res, {'status_texts': STATUS_TEXTS, 'ways': STATUS_WAYS})
 
 
+CATCHALL_OPS = ['gone', 'gone-head', 'ok', 'crash', 'setup-true', 'setup-false']
+
+
+def catchall_once(om, start, seq):
+    """an application configured with catchall=start serves / is re-configured as `seq` says: a failure of the error machinery itself
+    (an error handler that raises) ends in the last-resort 500 page while catchall is on and reaches the server while it is off;
+    everything else is answered as usual whatever the setting"""
+    app = om.Ombott({'catchall': start})
+    app.route('/ok', 'GET', lambda: 'fine')
+
+    def crash():
+        raise ValueError('boom')
+    app.route('/crash', 'GET', crash)
+
+    @app.error(404)
+    def missing(res):
+        raise RuntimeError('error handler failed')
+    cur = start
+    for k, op in enumerate(seq):
+        if op.startswith('setup-'):
+            cur = op == 'setup-true'
+            app.setup({'catchall': cur})
+            continue
+        method, path = {'gone': ('GET', '/gone/x'), 'gone-head': ('HEAD', '/gone/x'), 'ok': ('GET', '/ok'), 'crash': ('GET', '/crash')}[op]
+        c = wsgi.call(app, wsgi.environ(method, path))
+        if op.startswith('gone') and not cur:
+            if c.escaped is None:
+                return f'step {k + 1} ({op}) with catchall off: answered {c.status} instead of letting the failure reach the server'
+            continue
+        probs = wsgi.pep3333_problems(c, method)
+        want = 200 if op == 'ok' else 500
+        if not probs and c.code != want:
+            probs = [f'status {c.status}, expected {want}']
+        if probs:
+            return f'step {k + 1} ({op}) with catchall {"on" if cur else "off"} (config.catchall is {app.config.catchall}): ' + '; '.join(probs[:2])
+    return None
+
+
+def work_catchall(res, om, depth):
+    c = res['counters']
+    for start in (True, False):
+        for seq in itertools.product(CATCHALL_OPS, repeat=depth):
+            if not any(op.startswith('gone') for op in seq):
+                continue
+            case = {'catchall': [start, list(seq)]}
+            res['states'] += 1
+            res['transitions'] += depth
+            c['calls'] += depth
+            c['catchall_sequences'] += 1
+            res['nontrivial'] += 1
+            bad = catchall_once(om, start, seq)
+            res['outcomes'].add('catchall sequence ' + ('ok' if bad is None else 'BAD'))
+            if bad:
+                core.add_violation(res, case, f'catchall={start}, {list(seq)}: {bad}', sig='catchall:' + bad.split(': ')[-1][:20])
+    core.add_sample(res, {'catchall_ops': CATCHALL_OPS, 'depth': depth})
+
+
 def work(spec):
     kind, i, n, tier = spec
     res = core.new_result()
@@ -799,6 +857,8 @@ def work(spec):
         work_static(res, om)
     elif kind == 'statustext':
         work_statustext(res, om)
+    elif kind == 'catchall':
+        work_catchall(res, om, 4 if tier == 'quick' else 5)
     elif kind == 'sequence':
         work_sequence(res, om, 2 if tier == 'quick' else 3, i)
         om = sut.load(fresh=True)
@@ -823,6 +883,13 @@ def post(run):
 
 def replay(case):
     om = sut.load()
+    if 'catchall' in case:
+        start, seq = case['catchall']
+        bad = catchall_once(om, start, seq)
+        if bad is None:
+            return None
+        return (f'application created with catchall={start}, its 404 handler raises; steps {seq} (setup-true / setup-false = app.setup with that catchall value; '
+                f'gone = a request that ends in the failing error handler): {bad}')
     if 'statustext' in case:
         text, way, method = case['statustext']
         probs, cl = statustext_case(om, text, way, method)
